@@ -238,6 +238,25 @@ def r3_r4_r5(ctx):
         root = prog.root_of(c.fn).short.rsplit('::', 1)[-1]
         ctx.check(good, 'R5', 'attribution:%s' % root, c, 'Address::from_script is given the UTXO set\'s network', 'attribution uses network %s' % show(n))
     others = [c for c in prog.all_calls() if c.fn.crate == 'ic_btc_canister' and not c.cleanup and c.matches('bitcoin::address::Address::from_script') and not c.fn.short.startswith(T + 'Address::from_script')]
+    # the text an Address holds is the canonical rendering of a parsed / derived bitcoin address — for the
+    # queried address as for the index keys — never the caller's spelling (an upper-case bech32 string
+    # parses, but no index key is spelled that way)
+    from sa.dataflow import aggregates
+    n = 0
+    for f, bb, st in aggregates(prog, T + 'Address'):
+        if f.exp or f.short.endswith('::from_bytes') or 'Deserialize' in f.short or '__Visitor' in f.short:
+            continue
+        a = ex(prog, f).rvalue(st['rv'])
+        v = dict(a[4]).get('0')
+        arg = v[2][0] if P.call('*::to_string', P.anything)(v) else None
+        while isinstance(arg, tuple) and arg[0] in ('ref', 'deref'):
+            arg = arg[-1]
+        canon = isinstance(arg, tuple) and arg[0] == 'param' and (f.locals[arg[1]].get('ty') or f.locals[arg[1]]).get('adt') == 'bitcoin::address::Address'
+        n += 1
+        ctx.touch(f)
+        ctx.check(canon, 'R5', 'canonical-text:%s' % prog.root_of(f).short.split('::types::', 1)[-1], f.where(bb), 'Address text = to_string() of the parsed bitcoin address',
+                  'Address text is %s — not the canonical rendering of the parsed address: a valid non-canonical spelling (upper-case bech32) is accepted but matches no index key' % show(v)[:120])
+    ctx.floor('R5', 'Address constructions', n, 3)
     ctx.check(not others, 'R5', 'single-attribution-function', others[0] if others else '', 'no other script->address conversion exists in the canister', 'other conversions: %s' % [c.where() for c in others])
 
 
